@@ -82,6 +82,17 @@ BENIGN_KINDS = {
  10. replace a deprecated or verbose library idiom by its modern equivalent with identical semantics (ioutil -> os/io, fmt.Errorf("%v", err) kept as is where callers compare text, strings.Replace(..., -1) -> ReplaceAll, sort.Slice stable where it already was, time.Since, etc.).""",
 }
 
+BENIGN_KINDS["r8"] = """ 1. thread a context.Context (or a request-scoped logger) as a NEW FIRST parameter through two or three layers of calls, used only for logging / cancellation checks that cannot fire today (context.Background() at the roots);
+ 2. introduce typed constants / a small named type for a set of magic strings or numbers used in comparisons (states, modes, action names, suffixes) and use them at every comparison site, values unchanged;
+ 3. wrap errors with %w and switch the comparison sites that test them to errors.Is / errors.As, keeping which calls fail and every caller-visible decision exactly as before;
+ 4. introduce a small interface in front of a concrete dependency (file system calls, HTTP client, clock) with the production implementation forwarding 1:1, to make the code unit-testable; wire it through a struct field set in the constructor;
+ 5. restructure control flow of one mid-size function: nested if/else into guard clauses with early returns, or an if/else-if chain into a switch (or the reverse), or a loop with flags into a helper that returns - same paths, same order of effects;
+ 6. introduce a generic-free utility helper (contains / indexOf / min / max / clamp / a small set type) and use it in place of two or three hand-written loops or comparisons;
+ 7. make iteration order deterministic for LOGGING or listing purposes only (sorted keys when printing / when building a REST answer that is a list) without changing which elements are processed or any decision;
+ 8. split one long function into two or three named phases (validate / execute / publish) that are called in sequence from the original entry point under the same lock, or merge two tiny helpers back into their only caller;
+ 9. replace a hand-rolled synchronisation or bookkeeping idiom by its equivalent: Lock/Unlock pairs by Lock + defer Unlock in a function that has a single exit region, a counter + loop by a WaitGroup-free errgroup-like helper of your own ONLY if ordering and error semantics are identical, manual slice removal by an equivalent append-splice helper, a boolean flag pair by one small state variable;
+ 10. add unit-test seams that are inert in production: package-level function variables defaulting to the real function (var osRemove = os.Remove) used at the call sites, or optional hooks that are nil in production and nil-checked."""
+
 def benign_prompt(g, rnd, wt, out):
     props = "\n".join(f"PROPERTY {pid}: {BYID[pid]['title']}\nStatement: {BYID[pid]['statement']}\nAnchors: {json.dumps(BYID[pid]['anchors'])}\n" for pid in GROUPS[g])
     return f"""You are helping evaluate the FALSE-ALARM rate of source-level checkers that guard a Go project. You get some semantic properties of the project and your own scratch git worktree. Your job: produce TEN independent source changes to the code these properties depend on that are ORDINARY MAINTENANCE WORK and leave every one of these properties intact. A correct checker must stay silent on every one of them. Unlike a pure refactoring they MAY change behaviour that no listed property talks about (a log line, a metric, an error message text, an extra read-only endpoint, a new field in a status answer, a clearer refusal of an input that was already refused), but every guarantee stated in the properties below must hold exactly as before in every execution.
